@@ -417,6 +417,24 @@ def sample(ctx, budget=1.0, hint=None, broken=None):
                     fail('smoothed_path/not continuous', 'the smoothed path has a gap', inp, repr(max(gaps)), '0', rep)
                     continue
             ks = S.kinks(sm, tol=1e-6) if len(sm) > 1 else []
+
+            def _ill(i):
+                # a joint whose tangent mismatch is within what rounding of the control points (a few ulps of the coordinates) does to
+                # the direction of a very short end handle: the tangent of such a handle is not determined to 1e-6 by the floats
+                # themselves (a 3e-13 long handle at coordinates ~20 has a direction known to ~1e-2), so no kink is decidable there
+                sa, sb = sm[(i - 1) % len(sm)], sm[i]
+                def handle(sg, at_end):
+                    b_ = list(sg.bpoints())
+                    if at_end:
+                        b_ = b_[::-1]
+                    for q_ in b_[1:]:
+                        if q_ != b_[0]:
+                            return abs(q_ - b_[0])
+                    return float('inf')
+                hl = min(handle(sa, True), handle(sb, False))
+                mag = max(abs(q_) for q_ in list(sa.bpoints()) + list(sb.bpoints()))
+                return abs(sa.unit_tangent(1) - sb.unit_tangent(0)) <= 64 * 2.0 ** -52 * mag / hl
+            ks = [i for i in ks if not _ill(i)]
             if ks:
                 i = ks[0]
                 fail('smoothed_path/kinks remain', 'kinks(smoothed_path(path)) is not empty', inp,
